@@ -71,7 +71,7 @@ SLITHERLINK_COMBINATOR = Grid(OneOf(Spaces(-1, "g"), IntSpaces(-1, max_int=4, ma
 
 def serialize_slitherlink(problem):
     height = len(problem)
-    width = len(problem[0])
+    width = len(problem[0]) if height > 0 else 0
     return serialize_problem_as_url(SLITHERLINK_COMBINATOR, "slither", height, width, problem)
 
 
